@@ -1244,11 +1244,12 @@ func (s *sim) tickOp(rng *simcore.RNG) simcore.Op {
 }
 
 func (s *sim) Next(rng *simcore.RNG) simcore.Op {
-	if s.dead || s.switched || s.opsLeft <= 0 {
+	if s.dead || s.opsLeft <= 0 || (s.switched && s.mode != "multi") {
 		return nil
 	}
 	s.opsLeft--
 	if s.mode == "multi" {
+		// nothing of the (map-order dependent) state of the run may influence the trace
 		return s.nextMulti(rng)
 	}
 	live := s.livePeers()
@@ -1421,6 +1422,9 @@ func (s *sim) Apply(op simcore.Op) (ok bool) {
 	ok = s.apply(op)
 	if !ok && !s.rerun {
 		s.applied = s.applied[:len(s.applied)-1]
+	}
+	if s.mode == "multi" {
+		return true // whether an action was enabled depends on map order: never visible in the trace
 	}
 	return ok
 }
@@ -1683,7 +1687,9 @@ func (s *sim) drain() {
 	s.deliverStatus(hp, s.init, s.n)
 	s.after()
 	start := time.Now()
-	bound := 20*time.Second + time.Duration(others)*31*time.Second
+	// generous: a requester that picked a peer in the instant that peer was removed only
+	// notices at its 30s retry timer
+	bound := 65*time.Second + time.Duration(others)*31*time.Second
 	for !s.switched && time.Since(start) < bound {
 		if !hp.live {
 			// dropped together with a liar whose block was the other half of a failing pair:
@@ -1722,7 +1728,7 @@ func (s *sim) drain() {
 			}
 		}
 		sig := "no-switch-with-honest-peer"
-		if s.lowered {
+		if s.lowered && sh >= s.n-1 {
 			sig = "no-switch-after-lowered-status"
 		}
 		s.viol(sig, "an honest peer with the whole chain (height %d) was connected for %v of simulated time and answered every request, yet the node did not switch to consensus (store height %d, %d other silent peers)", s.n, time.Since(start), sh, others)
